@@ -60,6 +60,11 @@ def gen_history(seed, max_ops=60, alphabet=None, p_clear=0.03):
     case = {"kind": "el", "ops": ops}
     if fine:
         case["tick"] = 2.0 ** 40
+    if r.random() < 0.35:
+        # a driver that pops the events of one instant as a batch ("instant") or collects everything it pops
+        # ("end") and runs the callbacks afterwards: a popped event belongs to its caller - what it carries when
+        # it is run is what was scheduled (seeded C02_L: the loop re-uses the objects it handed out)
+        case["deferred"] = r.choice(["instant", "end"])
     return case
 
 
@@ -88,6 +93,13 @@ def run_impl(case):
     kept = []
     out = []
     crash = None
+    deferred = case.get("deferred")
+    held = []               # (event object, the result slot of its pop) not yet run
+
+    def flush():
+        for ev, slot in held:
+            slot[:] = [ev.callback(), to_ticks(ev.timestamp)]
+        del held[:]
     try:
         for op in case["ops"]:
             name = op[0]
@@ -101,7 +113,14 @@ def run_impl(case):
             elif name == "pop":
                 try:
                     e = loop.pop_event()
-                    out.append([e.callback(), to_ticks(e.timestamp)])
+                    if deferred:
+                        if deferred == "instant" and held and held[-1][0].timestamp != e.timestamp:
+                            flush()
+                        slot = []
+                        held.append((e, slot))
+                        out.append(slot)
+                    else:
+                        out.append([e.callback(), to_ticks(e.timestamp)])
                 except EventLoopException:
                     out.append("empty")
             elif name == "peek":
@@ -114,6 +133,7 @@ def run_impl(case):
                 out.append(len(loop))
             elif name == "now":
                 out.append(to_ticks(loop.current_time))
+        flush()
     except Exception as e:
         crash = f"{type(e).__name__}: {e}"
     return {"results": out, "crash": crash}
